@@ -66,6 +66,10 @@ Definition set_acl (n : string) (l : list words) (d : tdev) : tdev :=
   tupd d (match l with [] => vremove n (td_acls d) | _ => vset n l (td_acls d) end) (td_gps d) (td_tgs d) TTop.
 
 (* a line entered in a sub-mode *)
+Definition is_no (w : words) : option words := match w with "no" :: l => Some l | _ => None end.
+Definition filter_ref (w : words) : option string := match w with ["vpn-filter"; "value"; a] => Some a | _ => None end.
+Definition policy_ref (w : words) : option string := match w with ["default-group-policy"; g] => Some g | _ => None end.
+
 Definition tsub (d : tdev) (w : words) : tres :=
   match td_mode d with
   | TTop => TRefuse 6
@@ -73,11 +77,14 @@ Definition tsub (d : tdev) (w : words) : tres :=
       match vlookup g (td_gps d) with
       | None => TRefuse 3
       | Some b =>
-          match w with
-          | "no" :: l => if has_line l b then TOk (tupd d (td_acls d) (vset g (drop_line l b) (td_gps d)) (td_tgs d) (TGp g)) else TRefuse 3
-          | ["vpn-filter"; "value"; a] =>
-              if vhas a (td_acls d) then TOk (tupd d (td_acls d) (vset g (add_line w b) (td_gps d)) (td_tgs d) (TGp g)) else TRefuse 1
-          | _ => TOk (tupd d (td_acls d) (vset g (add_line w b) (td_gps d)) (td_tgs d) (TGp g))
+          let put b' := TOk (tupd d (td_acls d) (vset g b' (td_gps d)) (td_tgs d) (TGp g)) in
+          match is_no w with
+          | Some l => if has_line l b then put (drop_line l b) else TRefuse 3
+          | None =>
+              match filter_ref w with
+              | Some a => if vhas a (td_acls d) then put (add_line w b) else TRefuse 1
+              | None => put (add_line w b)
+              end
           end
       end
   | TTg t sec =>
@@ -86,10 +93,13 @@ Definition tsub (d : tdev) (w : words) : tres :=
       | Some (ty, secs) =>
           let b := match vlookup sec secs with Some b => b | None => [] end in
           let put b' := TOk (tupd d (td_acls d) (td_gps d) (vset t (ty, vset sec b' secs) (td_tgs d)) (TTg t sec)) in
-          match w with
-          | "no" :: l => if has_line l b then put (drop_line l b) else TRefuse 3
-          | ["default-group-policy"; g] => if vhas g (td_gps d) then put (add_line w b) else TRefuse 1
-          | _ => put (add_line w b)
+          match is_no w with
+          | Some l => if has_line l b then put (drop_line l b) else TRefuse 3
+          | None =>
+              match policy_ref w with
+              | Some g => if vhas g (td_gps d) then put (add_line w b) else TRefuse 1
+              | None => put (add_line w b)
+              end
           end
       end
   end.
